@@ -1360,6 +1360,93 @@ class CtrlImpl:
         raise ValueError(w)
 
 
+# the implementation side of a plot scenario: PlotMatplotlib on a model with a real DataCollector
+
+PLOT_COLORS = ["red", "green", "blue", "purple"]
+
+
+class PlotImpl:
+    def __init__(self):
+        self.trace = []
+        self.series = {}
+
+    def data(self, toks):
+        m = L()
+        mesa = m["mesa"]
+        self.series = {}
+        for t in toks:
+            name, vs = t.split("=")
+            self.series[name] = [] if vs == "-" else [int(v) for v in vs.split(",")]
+        n = len(next(iter(self.series.values()), []))
+        model = mesa.Model(seed=1)
+        model.i = 0
+        model.datacollector = mesa.DataCollector(
+            model_reporters={name: (lambda mm, name=name: self.series[name][mm.i]) for name in self.series})
+        for i in range(n):
+            model.i = i
+            model.datacollector.collect(model)
+        self.model = model
+        return "ok"
+
+    def plot(self, w):
+        m = L()
+        from mesa.visualization.components import make_plot_component
+
+        kind = w[0]
+        measure = {"str": lambda: w[1], "dict": lambda: dict(t.split(":") for t in w[1:]), "list": lambda: list(w[1:]),
+                   "tuple": lambda: tuple(w[1:]), "other": lambda: None}[kind]()
+        got = []
+        comp = make_plot_component(measure, post_process=got.append)
+        try:
+            with warnings.catch_warnings():
+                warnings.simplefilter("ignore")
+                render_once(comp(self.model))
+        except KeyError as e:
+            tok = f"err Key {e.args[0]}"
+            self.trace.append(("plot", kind, w[1:], dict(self.series), None, tok, len(got)))
+            return tok
+        except Exception as e:
+            self.trace.append(("plot", kind, w[1:], dict(self.series), None, exc_tok(e), len(got)))
+            return exc_tok(e)
+        if len(got) != 1:
+            self.trace.append(("plot", kind, w[1:], dict(self.series), None, f"post_process called {len(got)} times", len(got)))
+            return f"err post-process {len(got)}"
+        ax = got[0]
+        cycle = m["plt"].rcParams["axes.prop_cycle"].by_key()["color"]
+        names = {m["matplotlib"].colors.to_hex(c): c for c in PLOT_COLORS}
+        lines = []
+        for i, ln in enumerate(ax.lines):
+            lab = str(ln.get_label())
+            col = m["matplotlib"].colors.to_hex(ln.get_color())
+            ctok = "-" if col == m["matplotlib"].colors.to_hex(cycle[i % len(cycle)]) else names.get(col, "?")
+            ys = [to_tok("", v) for v in ln.get_ydata()]
+            lines.append(("-" if lab.startswith("_") else lab, ctok, ys))
+        facts = {"ylabel": ax.get_ylabel() or "-", "legend": ax.get_legend() is not None, "xlabel": ax.get_xlabel(), "calls": len(got)}
+        self.trace.append(("plot", kind, w[1:], dict(self.series), lines, facts, len(got)))
+        return (f"ok ylabel={facts['ylabel']} legend={'y' if facts['legend'] else 'n'}"
+                + "".join(f" | {lab},{c},{or_dash('+'.join(ys))}" for lab, c, ys in lines))
+
+    def backend(self, name):
+        from mesa.visualization.components import make_plot_component
+
+        try:
+            make_plot_component("m", backend=name)
+        except Exception as e:
+            self.trace.append(("backend", name, exc_tok(e)))
+            return exc_tok(e)
+        self.trace.append(("backend", name, "ok"))
+        return "ok"
+
+    def line(self, w):
+        if w[0] == "data":
+            return self.data(w[1:])
+        if w[0] == "plot":
+            return self.plot(w[1:])
+        if w[0] == "backend":
+            return self.backend(w[1])
+        raise ValueError(w)
+
+
 def run_impl(sc):
     w0 = sc.lines[0].split()
     assert w0[0] == "scenario"
@@ -1367,6 +1454,8 @@ def run_impl(sc):
         impl = SpaceImpl(w0[2], int(w0[3]), int(w0[4]), [int(v) for v in w0[5:]])
     elif w0[1] == "ctrl":
         impl = CtrlImpl(w0[2])
+    elif w0[1] == "plot":
+        impl = PlotImpl()
     else:
         impl = ParamsImpl()
     obs = ["ok"]
@@ -1869,8 +1958,40 @@ def gen_ctrl(R, tier):
     return core.Scenario(lines, {})
 
 
+PLOT_MEASURES = ["a", "b", "c", "Gini"]
+
+
+def gen_plot(R, tier):
+    lines = ["scenario plot"]
+    for _ in range(R.randint(1, 2)):
+        names = R.sample(PLOT_MEASURES, R.randint(1, 3))
+        n = R.choice([0, 1, 2, 3, 5])
+        lines.append(" ".join(["data", *[f"{m}=" + (",".join(str(R.randrange(10)) for _ in range(n)) or "-") for m in names]]))
+        for _ in range(R.randint(2, 5)):
+            def pick(k):
+                pool = names if R.random() < 0.85 else PLOT_MEASURES + ["zz"]
+                return [R.choice(pool) for _ in range(k)] if R.random() < 0.2 else R.sample(pool, min(k, len(pool)))
+            k = R.random()
+            if k < 0.25:
+                lines.append(f"plot str {pick(1)[0]}")
+            elif k < 0.5:
+                ms = list(dict.fromkeys(pick(R.randint(0, 3))))
+                lines.append(" ".join(["plot", "dict", *[f"{m}:{R.choice(PLOT_COLORS)}" for m in ms]]))
+            elif k < 0.7:
+                lines.append(" ".join(["plot", "list", *pick(R.randint(0, 3))]))
+            elif k < 0.9:
+                lines.append(" ".join(["plot", "tuple", *pick(R.randint(0, 3))]))
+            elif k < 0.95:
+                lines.append("plot other")
+            else:
+                lines.append(f"backend {R.choice(['matplotlib', 'altair', 'bokeh'])}")
+    return core.Scenario(lines, {})
+
+
 def gen_scenario(R, tier):
     k = R.random()
+    if k >= 0.97:
+        return gen_plot(R, tier)
     return gen_space(R, tier) if k < 0.4 else gen_ctrl(R, tier) if k < 0.52 else gen_params(R, tier)
 
 
@@ -2022,6 +2143,33 @@ def oracle_ctrl(tr):
     return bad
 
 
+def oracle_plot(tr):
+    """the measure plots: one line per requested measure, in order, with that measure's collected values"""
+    bad = []
+    for ev in tr:
+        if ev[0] != "plot":
+            continue
+        _, kind, args, series, lines, facts, calls = ev
+        req = [a.split(":")[0] for a in args] if kind != "other" else []
+        cols = [a.split(":")[1] for a in args] if kind == "dict" else ["-"] * len(req)
+        missing = [m for m in req if m not in series]
+        if lines is None:
+            if not (missing and facts == f"err Key {missing[0]}"):
+                bad.append(f"plot-raised: plotting {kind} {args} over the measures {sorted(series)} gave {facts}")
+            continue
+        if missing:
+            bad.append(f"plot-missing-measure: {missing[0]} is not collected, plotted all the same")
+            continue
+        want = [("-" if kind == "str" else m, c, [str(v) for v in series[m]]) for m, c in zip(req, cols)]
+        if [(a, b, list(c)) for a, b, c in lines] != want:
+            bad.append(f"plot-one-line-per-measure: lines {lines} for the request {kind} {args} over {series}")
+        if facts["calls"] != 1:
+            bad.append(f"plot-post-process: the hook was called {facts['calls']} times")
+        if facts["legend"] != (kind in ("dict", "list", "tuple")) or (facts["ylabel"] != "-") != (kind == "str") or facts["xlabel"] != "Step":
+            bad.append(f"plot-labels: {facts} for a {kind} request")
+    return bad
+
+
 def no_room(w0):
     """space scenarios on a space that cannot hold an agent and that draw_space / Altair refuse for its size (outside the
     property's quantifier: there is no occupancy state to show): (draw_space refuses, Altair refuses)"""
@@ -2039,6 +2187,8 @@ def oracle(sc, obs):
     w0 = sc.lines[0].split()
     if w0[1] == "ctrl":
         return oracle_ctrl(tr)
+    if w0[1] == "plot":
+        return oracle_plot(tr)
     fam = w0[2] if w0[1] == "space" else None
     draw_refuses, altair_refuses = no_room(w0) if fam else (False, False)
     for ev in tr:
